@@ -95,6 +95,9 @@ class _FilAddrUtils:
             raise ValueError(f"Invalid address type (expected {addr_type}, got {addr_type_got})")
         # Decode from base32
         addr_dec_bytes = Base32Decoder.Decode(addr_no_prefix[1:], FilAddrConst.BASE32_ALPHABET)
+        # Only the canonical encoding is an address (no padding characters, unused bits of the last character zero)
+        if Base32Encoder.EncodeNoPadding(addr_dec_bytes, FilAddrConst.BASE32_ALPHABET) != addr_no_prefix[1:]:
+            raise ValueError("Invalid address (not in canonical form)")
         # Validate length
         AddrDecUtils.ValidateLength(addr_dec_bytes,
                                     Blake2b160.DigestSize() + Blake2b32.DigestSize())
